@@ -5,9 +5,11 @@ import (
 	"fmt"
 	"testing"
 
+	lz4 "github.com/pierrec/lz4/v4"
 	"pgregory.net/rapid"
 
 	"verifharness/gen"
+	"verifharness/inst"
 	"verifharness/ref"
 	"verifharness/stat"
 )
@@ -121,6 +123,41 @@ type c05Case struct {
 	Other *frameSrc  `json:"other,omitempty"` // splice donor
 	Muts  []mutation `json:"muts"`
 	R     rcfg       `json:"reader"`
+	Prev  int        `json:"prev,omitempty"` // > 0: the Reader has decoded other valid frames before (1: a dependent frame with 4 MiB blocks and a large block; 2: a legacy frame; 3: both)
+}
+
+// c05PrevFrames: valid frames an earlier life of the Reader has decoded; they need larger buffers than the frames under test.
+var c05PrevCache = map[int][][]byte{}
+
+func c05PrevFrames(kind int) [][]byte {
+	if kind == 0 {
+		return nil
+	}
+	if fs, ok := c05PrevCache[kind]; ok {
+		return fs
+	}
+	fs := c05PrevBuild(kind)
+	c05PrevCache[kind] = fs
+	return fs
+}
+
+func c05PrevBuild(kind int) [][]byte {
+	var out [][]byte
+	if kind&1 != 0 {
+		spec := gen.FrameSpec{Version: 1, BlockIndep: false, BSCode: 7, Blocks: []gen.BlockSpec{{Raw: true, RawN: 300000, RawSeed: 3},
+			{Seqs: []gen.SeqSpec{{LitN: 2, LitSeed: 2, LitKind: "text", Off: 30000, MLen: 200}, {LitN: 6, LitSeed: 3, LitKind: "text"}}}}}
+		z, _ := spec.Build()
+		out = append(out, z)
+	}
+	if kind&2 != 0 {
+		var sink inst.Sink
+		w := lz4.NewWriter(&sink)
+		_ = w.Apply(lz4.LegacyOption(true))
+		_, _ = w.Write(opData(70000, 9))
+		_ = w.Close()
+		out = append(out, sink.Buf)
+	}
+	return out
 }
 
 func drawFrameSrc(t *rapid.T, label string) frameSrc {
@@ -358,6 +395,9 @@ func drawC05(t *rapid.T) c05Case {
 		c.Muts = append(c.Muts, m)
 	}
 	c.R = drawRcfg(t, 65536)
+	if rapid.IntRange(0, 7).Draw(t, "reused?") == 0 {
+		c.Prev = rapid.IntRange(1, 3).Draw(t, "prev")
+	}
 	c.R.Src = nil
 	return c
 }
@@ -381,7 +421,10 @@ func runC05(c c05Case, rec *stat.Rec) *stat.Failure {
 		rec.Class("hostile/block-decodes-beyond-the-block-maximum")
 	}
 	rec.Eval()
-	res := readAll(mz, c.R, nil)
+	res := readAllAfter(c05PrevFrames(c.Prev), mz, c.R, nil)
+	if c.Prev > 0 {
+		rec.Class("reader/reused-after-other-frames")
+	}
 	mode := fmt.Sprintf("conc>1=%v/writeto=%v", concOf(c.R.Conc) > 1, c.R.WriteTo)
 	what := "none"
 	if len(c.Muts) > 0 {
